@@ -18,6 +18,10 @@ struct Graph {
     s: usize,
     t: usize,
     edges: Vec<(usize, usize, i32)>,
+    /// the solver first completes a plain `run()` and only then joins the shared bound through
+    /// `run_with_upper_bound` (family finished-first): a computation with no phase left, whose only event is
+    /// the `fetch_min` of its - already known - maximum flow
+    pre: bool,
 }
 
 #[derive(Default)]
@@ -97,7 +101,18 @@ fn run_schedule(graphs: &[Graph], b0: i32, schedule: &[usize], follow_prefix_by_
                 g.edges.iter().map(|(u, v, c)| InputEdge::new(*u, *v, ResidualEdgeData::new(*c))).collect();
             // a panic inside the solver must not leave the scheduler waiting forever
             let res = std::panic::catch_unwind(std::panic::AssertUnwindSafe(|| {
-                let mut solver = Dinic::from_edge_list(edges, g.s, g.t);
+                // every second computation is built through the provided trait constructor
+                // `from_generic_edge_list` (identity closure over the same edges): both constructors must yield
+                // the same computation (seeded change C04-r4m1: the generic one dropped identical parallel edges)
+                let mut solver = if tid % 2 == 1 {
+                    let raw: Vec<InputEdge<i32>> = g.edges.iter().map(|(u, v, c)| InputEdge::new(*u, *v, *c)).collect();
+                    Dinic::from_generic_edge_list(&raw, g.s, g.t, |e| ResidualEdgeData::new(e.data))
+                } else {
+                    Dinic::from_edge_list(edges, g.s, g.t)
+                };
+                if g.pre {
+                    solver.run();
+                }
                 solver.run_with_upper_bound(bound);
                 solver.max_flow().map(|v| {
                     let bits: String = match solver.assignment(g.s) {
@@ -204,10 +219,17 @@ fn random_graph(rng: &mut Rng) -> Graph {
         let v = rng.below(n as u64) as usize;
         edges.push((u, v, rng.range(0, 4) as i32));
     }
+    // identical parallel edges (same end points, same capacity), adjacent and apart
+    if rng.chance(1, 2) && !edges.is_empty() {
+        let e = *rng.pick(&edges);
+        edges.push(e);
+        let k = rng.below(edges.len() as u64) as usize;
+        edges.insert(k, e);
+    }
     // make sure the node count covers source and target
     edges.push((0, 1 % n, 1));
     edges.push((n - 2, n - 1, rng.range(1, 3) as i32));
-    Graph { s: 0, t: n - 1, edges }
+    Graph { s: 0, t: n - 1, edges, pre: false }
 }
 
 /// trunk -> hub -> fan of branches -> sink, plus a source-sink shortcut: needs several phases, and in the
@@ -239,7 +261,7 @@ fn fan_graph(rng: &mut Rng) -> Graph {
     if rng.chance(1, 2) {
         rng.shuffle(&mut edges);
     }
-    Graph { s: 0, t: sink, edges }
+    Graph { s: 0, t: sink, edges, pre: false }
 }
 
 fn render_case(family: &str, graphs: &[Graph], ph: &[Vec<i32>], b0: i32, sched: &[usize]) -> Case {
@@ -247,7 +269,12 @@ fn render_case(family: &str, graphs: &[Graph], ph: &[Vec<i32>], b0: i32, sched: 
     c.op(format!("N {}", graphs.len()));
     c.op(format!("B {b0}"));
     for (i, g) in graphs.iter().enumerate() {
-        c.op(format!("P {i} {}", join(ph[i].iter(), " ")));
+        if g.pre {
+            // phases of the plain run are over before the bound is joined; F = its last accumulated flow
+            c.op(format!("PR {i} {}", ph[i].last().copied().unwrap_or(0)));
+        } else {
+            c.op(format!("P {i} {}", join(ph[i].iter(), " ")));
+        }
         c.op(format!("G {i} {} {} {}", g.s, g.t, join(g.edges.iter().map(|(u, v, w)| format!("{u}:{v}:{w}")), " ")));
     }
     c.op(format!("S {}", join(sched.iter(), " ")));
@@ -317,7 +344,7 @@ fn generate(rng: &mut Rng, tier: Tier, cases: &mut Vec<Case>) {
     };
     let mut fans: Vec<(Graph, Vec<i32>)> = vec![(
         // witness of a seeded change (stale DFS-stack bottleneck used for an early abort): true flow 11
-        Graph { s: 0, t: 5, edges: vec![(0, 5, 1), (0, 1, 10), (1, 2, 10), (2, 3, 8), (2, 4, 2), (2, 5, 6), (3, 5, 8), (4, 5, 2)] },
+        Graph { s: 0, t: 5, edges: vec![(0, 5, 1), (0, 1, 10), (1, 2, 10), (2, 3, 8), (2, 4, 2), (2, 5, 6), (3, 5, 8), (4, 5, 2)], pre: false },
         Vec::new(),
     )];
     fans[0].1 = phases(&fans[0].0);
@@ -353,6 +380,39 @@ fn generate(rng: &mut Rng, tier: Tier, cases: &mut Vec<Case>) {
             explore_all(&graphs, &ph, b0, "fan-pairs-2", 2000, cases);
         }
     }
+    // finished-first: one or more of the computations complete a plain `run()` before they join the shared bound
+    // through `run_with_upper_bound` (seeded change C04-r4m2: a finished solver returned early and never
+    // published its flow); alone for every initial bound, and against one or two ordinary computations
+    let n_pre = match tier {
+        Tier::Quick => 10,
+        Tier::Thorough => 120,
+    };
+    for j in 0..n_pre {
+        let (g, ph) = pick(rng, &pool);
+        let f = *ph.last().unwrap_or(&0);
+        let gp = Graph { pre: true, ..g.clone() };
+        for b0 in 0..=(f + 2) {
+            explore_all(std::slice::from_ref(&gp), std::slice::from_ref(&ph), b0, "finished-first", 4, cases);
+        }
+        let others: Vec<(Graph, Vec<i32>)> = (0..1 + j % 2).map(|_| pick(rng, &pool)).collect();
+        if others.iter().map(|x| x.1.len() + 1).sum::<usize>() > 7 {
+            continue;
+        }
+        let mut graphs = vec![gp.clone()];
+        let mut phs = vec![ph.clone()];
+        for (k, (og, oph)) in others.iter().enumerate() {
+            graphs.push(Graph { pre: j % 3 == 0 && k == 1, ..og.clone() });
+            phs.push(oph.clone());
+        }
+        if j % 2 == 1 {
+            graphs.reverse();
+            phs.reverse();
+        }
+        let maxf = phs.iter().map(|p| *p.last().unwrap_or(&0)).max().unwrap();
+        for b0 in [0, f, maxf, maxf + 1] {
+            explore_all(&graphs, &phs, b0, "finished-first", 300, cases);
+        }
+    }
     // concurrent: all interleavings, all initial bounds
     let (combos2, combos3, combos4, cap) = match tier {
         Tier::Quick => (24, 6, 1, 2000),
@@ -384,7 +444,8 @@ fn execute(c: &Case, obs: &mut Vec<String>) {
     for l in &c.ops {
         let t: Vec<&str> = l.split_whitespace().collect();
         match t[0] {
-            "N" => graphs = vec![Graph { s: 0, t: 0, edges: vec![] }; t[1].parse().unwrap()],
+            "N" => graphs = vec![Graph { s: 0, t: 0, edges: vec![], pre: false }; t[1].parse().unwrap()],
+            "PR" => graphs[t[1].parse::<usize>().unwrap()].pre = true,
             "B" => b0 = t[1].parse().unwrap(),
             "G" => {
                 let i: usize = t[1].parse().unwrap();
